@@ -842,6 +842,11 @@ def property_served_records():
     ]
 
 
+def setter_served_records():
+    return [{"name": "SetterInt", "attrs": [{"kind": "int", "default": "none", "prop": "setter"}, {"kind": "nums", "default": "mut"}], "opts": {}},
+            {"name": "SetterNums", "attrs": [{"kind": "nums", "default": "none", "prop": "setter"}, {"kind": "int", "default": "lit"}], "opts": {}}]
+
+
 def uncopyable_records():
     return [single("resources", "mut"), composite("CompRes", [("int", "lit"), ("resources", "none"), ("nums", "mut")])]
 
